@@ -363,9 +363,27 @@ func c09Clique(p vbase.Params, r *vbase.Result, async bool) {
 			quiesce()
 			r.Obs("cases_where_the_collector_left_the_view_by_a_tc", 1)
 		}
+		// another proposal may be handled while votes for B are waiting for their block (a proposal that the replica
+		// rejects): it releases the deferred votes, whose block the replica can obtain by a block request
+		decoyAt := -1
+		if rng.Chance(1, 4) {
+			decoyAt = rng.Range(0, len(order))
+		}
+		deliverDecoy := func() {
+			// parent is not the certified block: rejected without a vote (B's sibling would use up the subject's vote for the view
+			// and make it refuse - and not store - B itself: an equivocating leader, not judged here)
+			d := hotstuff.NewBlock(unknown.Hash(), genQC, vk.Batch(53, 1, 1), 1, 2)
+			seq = append(seq, "DECOY-PROPOSAL")
+			c.inject(2, subj, hotstuff.ProposeMsg{ID: 2, Block: d})
+			quiesce()
+			r.Obs("cases_with_another_proposal_before_the_block", 1)
+		}
 		for k, oi := range order {
 			if c.Panic != nil || bad {
 				break
+			}
+			if k == decoyAt && !proposed {
+				deliverDecoy()
 			}
 			if k == tcAt && proposed {
 				deliverTC()
